@@ -54,8 +54,13 @@ def drive_and_validate(c, mode, ntr, steps):
         c.traces_validated += ntr
         c.samples.append({"kind": "recorded trace prefix accepted by OrderedMapTrace.tla", "events": lines[:10]})
     else:
-        start = max(i for i in range(at) if '"op":"New"' in lines[i])
+        start = max([i for i in range(at) if '"op":"New"' in lines[i]] or [0])
         ctx = lines[start:at]
+        if '"op":"Types"' in lines[at - 1]:
+            if mode == "c10":
+                c.report_failure("itermap: maps of several instantiations in one process: a call panicked or a reply differed from a plain sequence",
+                                 {"rejected_at_line": at, "event": json.loads(lines[at - 1])})
+            return lines
         try:
             op = json.loads(ctx[-1]).get("op")
             crash = "crash" in json.loads(ctx[-1])
